@@ -89,8 +89,27 @@ static void odd_files(hz::Ctx &ctx) {
   }
 }
 
+// the longest encodings the library can be made to emit (an immediate wider than the operand is not rejected: 16, 17, 18 bytes), at every
+// position in front of a chunk boundary and in front of the end of small caller buffers, plainly, with chunk fitting and counting
+static void longest_encodings(hz::Ctx &ctx) {
+  static const char *LONG[] = {"imul r9d, word [eax+ebx*8+0x11223344], 0x1122334455667788", "add qword [eax+ebx*8+0x12345678], 0x1122334455667788", "mov qword [r8d+r9d*8+0x12345678], 0x55667788", "test qword [r12d+r13d*2+0x7fffffff], 0x1122334455667788",
+    "imul r15, qword [r8d+r9d*4+0x11223344], 0x55667788", "vperm2i128 ymm9, ymm10, [r11d+r12d*8+0x11223344], 0x12", "shld word [r8d+r9d*2+0x12345678], r10w, 0x1122", "mov r15, 0x1122334455667788", "cmp word [eax+r9d*8-0x12345678], 0x1122334455"};
+  for (int li = 0; li < 9; li++) for (int chunk : {0, 16, 17, 18, 19, 20, 24, 32, 40}) for (int left = 1; left <= 21; left++) for (int mode = 0; mode < 3; mode++) for (int bufk = 0; bufk < 2; bufk++) {
+    if (chunk == 0 && mode == 1) continue;
+    if (!ctx.take()) continue;
+    FzCase c; c.text = std::string(LONG[li]) + "\n" + LONG[(li + left) % 9] + "\n"; c.combo = (li + left + chunk) % 12; c.mode = mode; c.chunk = chunk ? chunk : 16; c.internal = false; c.flags = (left % 5 == 0 ? 1 : 0) | (left % 3 == 0 ? 2 : 0);
+    if (bufk == 0) { c.n = 300; c.start = (chunk ? chunk : 32) * 3 - left; } else { c.n = 64 + left; c.start = c.n - 20 - left % 4; if (c.start < 0) c.start = 0; }
+    std::string id = serfz(c); if (!ctx.begin(id, hz::jesc(c.text).substr(0, 200))) continue;
+    ctx.cls("part:longest-encodings"); ctx.nontrivial(id);
+    std::string why; bool ok = run_fz(c, why);
+    if (ctx.want_sample()) ctx.put_sample("\"" + std::string(LONG[li]) + "\" with " + std::to_string(left) + " bytes left in a chunk of " + std::to_string(chunk) + " -> " + (ok ? "returned normally" : why));
+    if (!ok) { hz::Failure f; f.caseid = id; f.text = hz::jesc(c.text).substr(0, 300); f.symptom = "bad-return"; f.detail = why; f.tags = {"mn:text", "form:longest", "sym:bad-return"}; ctx.fail(f); }
+  }
+}
+
 void prop_c09_grammar(hz::Ctx &ctx) {
   odd_files(ctx);
+  longest_encodings(ctx);
   static Pool P = build_pool(ctx.seed, 1);
   hz::Rng r(ctx.seed * 31 + 9);
   long long total = ctx.thorough() ? 20000000 : 2000000;
